@@ -33,11 +33,20 @@ def main():
         print(o)
         return 2
     try:
-        os.makedirs(f"{wt}/SEED", exist_ok=True)
-        shutil.copy(f"{src}/demo.py", f"{wt}/SEED/demo.py")
+        # keep the demo where its author ran it (some demos locate the tree relative to their own path)
+        demo_rel = "SEED/demo.py"
+        parts = src.split(os.sep)
+        if "SEED" in parts and parts[-1] != "SEED":
+            demo_rel = os.sep.join(parts[parts.index("SEED"):] + ["demo.py"])
+        mp = os.path.join(src, "meta.json")
+        if os.path.exists(mp):
+            demo_rel = json.load(open(mp)).get("demo_path", demo_rel)
+        out["demo_path"] = demo_rel
+        os.makedirs(os.path.dirname(f"{wt}/{demo_rel}"), exist_ok=True)
+        shutil.copy(f"{src}/demo.py", f"{wt}/{demo_rel}")
         env = dict(os.environ, PYTHONPATH=wt, PYTHONDONTWRITEBYTECODE="1")
         fast = "--checks-only" in sys.argv
-        rc0, o0 = (0, "") if fast else sh("/venv/bin/python SEED/demo.py", cwd=wt, env=env, timeout=900)
+        rc0, o0 = (0, "") if fast else sh(f"/venv/bin/python {demo_rel}", cwd=wt, env=env, timeout=900)
         out["demo_unpatched_rc"] = rc0
         rca, oa = sh(f"git apply --exclude='SEED/*' {src}/patch.diff", cwd=wt)
         out["apply_rc"] = rca
@@ -46,7 +55,7 @@ def main():
         rct, ot = (0, "") if fast else sh("/venv/bin/python -m pytest -q -p no:cacheprovider --timeout=900 -q 2>&1 | tail -3", cwd=wt, env=dict(os.environ, PYTHONDONTWRITEBYTECODE="1"))
         out["tests_tail"] = ot.strip().splitlines()[-1:] if ot.strip() else []
         out["tests_failed"] = bool(re.search(r"\bfailed\b|\berror", ot))
-        rc1, o1 = (1, "") if fast else sh("/venv/bin/python SEED/demo.py", cwd=wt, env=env, timeout=900)
+        rc1, o1 = (1, "") if fast else sh(f"/venv/bin/python {demo_rel}", cwd=wt, env=env, timeout=900)
         out["demo_patched_rc"] = rc1
         out["demo_patched_tail"] = o1.strip().splitlines()[-2:]
         shutil.rmtree(f"{wt}/SEED", ignore_errors=True)  # the demo is not part of the change
